@@ -37,12 +37,15 @@ def knots(kind, n):
     return base[:n]
 
 
-def check_spline(F, run, fn, clamped, kind, n):
+def check_spline(F, run, fn, clamped, kind, n, cplx=False):
     b = F.fn("interp::spline::" + fn)
     xs = knots(kind, n)
-    ys = PI.symbols("y", n)
+    ys = PI.csymbols("y", n) if cplx else PI.symbols("y", n)
     f0, fn_ = sp.Symbol("f0", real=True), sp.Symbol("fn", real=True)
-    inst = "%s-%d" % (kind, n)
+    if cplx:
+        # complex ordinates and end slopes over real knots (a dropped or conjugated imaginary part is invisible with real data)
+        f0, fn_ = f0 + sp.I * sp.Symbol("f0i", real=True), fn_ + sp.I * sp.Symbol("fni", real=True)
+    inst = "%s-%d%s" % (kind, n, "-complex" if cplx else "")
     dp = "interp::spline::" + fn
     where = F.loc(b)
     args = [list(xs), list(ys)] + ([(f0, fn_)] if clamped else []) + [PI.TOL]
@@ -155,6 +158,7 @@ def run(F, run, tier):
     for fn, clamped in (("spline_free", False), ("spline_clamped", True)):
         for kind, n in sets:
             check_spline(F, run, fn, clamped, kind, n)
+        check_spline(F, run, fn, clamped, "rational", 3, cplx=True)
     # consequences
     b = F.fn("interp::spline::spline_clamped")
     q = PI.symbols("q", 4)
